@@ -80,6 +80,28 @@ def run_seed(prop, sid):
         shutil.rmtree(tmp, ignore_errors=True)
 
 
+def run_refactor(prop, rid):
+    """a stored behaviour-preserving refactoring (refactors/<rid>/patch.diff, written by an independent sub-agent around `prop`'s anchors and
+    confirmed equivalent by a differential program) must NOT be reported"""
+    REPO = _repo()
+    tmp = tempfile.mkdtemp(prefix="st.")
+    try:
+        shutil.copytree(os.path.join(REPO, "hexital"), os.path.join(tmp, "hexital"), ignore=shutil.ignore_patterns("__pycache__"))
+        a = subprocess.run(["git", "apply", os.path.join(VERIF, "refactors", rid, "patch.diff")], cwd=tmp, capture_output=True, text=True)
+        if a.returncode != 0:
+            return "refactor:" + rid, "skipped", "patch does not apply to the current tree", {}
+        env = dict(os.environ, HEXLINT_REPO=tmp, HEXLINT_EVIDENCE_DIR=os.path.join(tmp, "ev"))
+        c = subprocess.run([os.path.join(VERIF, "check"), prop], capture_output=True, text=True, env=env)
+        return "refactor:" + rid, "ok" if c.returncode == 0 else "FAILED", "stored-refactoring", {prop: c.returncode}
+    finally:
+        shutil.rmtree(tmp, ignore_errors=True)
+
+
+def refactors_for(prop):
+    d = os.path.join(VERIF, "refactors")
+    return sorted(x for x in os.listdir(d) if x.startswith(prop + "-r") and os.path.exists(os.path.join(d, x, "patch.diff"))) if os.path.isdir(d) else []
+
+
 def seeds_for(prop):
     d = os.path.join(VERIF, "seeded")
     return sorted(x for x in os.listdir(d) if x.startswith(prop + "-") and os.path.exists(os.path.join(d, x, "patch.diff"))) if os.path.isdir(d) else []
@@ -91,4 +113,5 @@ def run_for_property(prop: str, workers: int = 16):
     with ThreadPoolExecutor(workers) as ex:
         out = list(ex.map(lambda e: run_one(e, {prop}), todo))
         out += list(ex.map(lambda sid: run_seed(prop, sid), seeds_for(prop)))
+        out += list(ex.map(lambda rid: run_refactor(prop, rid), refactors_for(prop)))
     return [{"id": i, "status": s, "kind": inf if s != "skipped" else "skipped", "exit": r.get(prop)} for i, s, inf, r in out]
